@@ -2,6 +2,7 @@ import TexelVerif.Chess.SpecLemmas
 import TexelVerif.Chess.KingRay
 import TexelVerif.Chess.TexelGenEvade
 import TexelVerif.Chess.TexelGenGivesCastle
+import TexelVerif.Chess.TexelGenCC4
 /-!
 # C01 — generated legal moves are exactly the legal moves of chess
 
@@ -223,6 +224,60 @@ theorem texel_givesCheck_kings_adjacent_witness :
 
 /-- the decidable form of the `givesCheck` hypotheses, evaluated by the driver on every tested position -/
 theorem texel_gcWF_of_check (p : Pos) (ok : Sq) (h : Texel.gcWFb p ok = true) : Texel.GcWF p ok := Texel.gcWF_of_b p ok h
+
+/-! ## `MoveGen::pseudoLegalCapturesAndChecks` (moveGen.cpp:257-384; model `Texel.pseudoLegalCapturesAndChecks`)
+
+What the C++ generates, precisely (`Texel.CCGen`, with `D = discovered`: every square the opponent's king sees along a
+rook line if some own rook or queen would see the king with the first blockers removed, likewise for bishop lines):
+queen / rook / bishop / knight — all moves of a piece on `D`, else captures and moves onto `kRookAtk` / `kBishAtk` /
+`kKnightAtk` as fits the piece; king — all steps if on `D`, else captures, and every pseudo-legal castling move; pawns
+(promotion piece queen or knight) — captures incl. en passant, every push of a pawn on `D` or on its seventh rank, else
+pushes onto a square from which the pawn attacks the king.  The list is a superset of "captures, promotions and checks":
+a piece on `D` that moves along its line, or castling without check, is generated as well. -/
+
+/-- **exact characterisation**: the list is the set of pseudo-legal moves satisfying `CCGen` -/
+theorem texel_capturesAndChecks_iff (p : Pos) (k ok : Sq) (h : Texel.GenWF p k) (m : Mv) :
+    m ∈ Texel.pseudoLegalCapturesAndChecks p k ok ↔ (pseudo p m = true ∧ Texel.CCGen p ok m) := Texel.mem_cc_iff p k ok h m
+
+/-- **soundness**: every generated move is pseudo-legal -/
+theorem texel_capturesAndChecks_sound (p : Pos) (k ok : Sq) (h : Texel.GenWF p k) (m : Mv)
+    (hm : m ∈ Texel.pseudoLegalCapturesAndChecks p k ok) : pseudo p m = true := Texel.cc_sound p k ok h m hm
+
+/-- `discovered` contains every square from which a move uncovers a check (second block of `givesCheck`) -/
+theorem texel_discovered_complete (b : Board) (hv : Texel.ValidB b) (w : Bool) (ok : Sq) (hK : Texel.KingAt b (!w) ok)
+    (f t : Sq) (h : Texel.gcDisc b w ok f t = true) : Texel.tst (Texel.ccDiscovered b w ok) f = true :=
+  Texel.disc_mem b hv w ok hK f t h
+
+/-- **completeness**: every pseudo-legal move that captures (en passant included), promotes, or gives check — direct,
+    discovered, by the castling rook or through an en-passant capture — is generated, provided the promotion piece (if
+    any) is a queen or a knight and a king move does not end next to the opponent's king -/
+theorem texel_capturesAndChecks_complete (p : Pos) (k ok : Sq) (h1 : Texel.GenWF p k) (h2 : Texel.GcWF p ok) (m : Mv)
+    (hp : pseudo p m = true) (hkk : kind p.b[m.f] = 1 → Texel.kingGeom ok m.t = false) (hq : qnPromo m = true)
+    (hc : isCaptureMv p m = true ∨ m.promo ≠ 0 ∨ givesCheckSpec p m = true) :
+    m ∈ Texel.pseudoLegalCapturesAndChecks p k ok := Texel.cc_complete p k ok h1 h2 m hp hkk hq hc
+
+/-- …in particular no legal move of the class the acceptor checks (`ccClass`: capture or check, promotion piece queen or
+    knight) and no legal promotion to queen or knight is omitted -/
+theorem texel_capturesAndChecks_complete_legal (p : Pos) (k ok : Sq) (h1 : Texel.GenWF p k) (h2 : Texel.GcWF p ok) (m : Mv)
+    (hl : legalB p m = true) (hc : ccClass p m = true ∨ (m.promo ≠ 0 ∧ qnPromo m = true)) :
+    m ∈ Texel.pseudoLegalCapturesAndChecks p k ok := by
+  have hp : pseudo p m = true := (legal_safe p m hl).1
+  have hkk := Texel.legal_king_apart p k ok h1 h2 m hl
+  rcases hc with hc | ⟨h0, hq⟩
+  · unfold ccClass at hc
+    simp only [Bool.and_eq_true, Bool.or_eq_true] at hc
+    refine Texel.cc_complete p k ok h1 h2 m hp hkk hc.2 ?_
+    rcases hc.1 with h | h
+    · exact Or.inl h
+    · exact Or.inr (Or.inr h)
+  · exact Texel.cc_complete p k ok h1 h2 m hp hkk hq (Or.inr (Or.inl h0))
+
+/-- the list is a proper superset of its class: with Ke1, Rh1 against Ka8, castling O-O is generated although it neither
+    captures nor gives check (the castling block of the C++ is unconditional) -/
+theorem texel_capturesAndChecks_superset_witness :
+    let p : Pos := { b := (Vector.replicate 64 0 |>.set 4 WKING |>.set 7 WROOK |>.set 56 BKING), wtm := true, castle := 2, ep := none, hmc := 0, fmc := 1 }
+    let m : Mv := { f := sq 4, t := sq 6, promo := 0 }
+    m ∈ Texel.pseudoLegalCapturesAndChecks p (sq 4) (sq 56) ∧ isCaptureMv p m = false ∧ givesCheckSpec p m = false := by decide
 
 -- non-vacuity of the `givesCheck` hypotheses: a bare-kings position
 example : Texel.GcWF { b := (Vector.replicate 64 0 |>.set 0 WKING |>.set 63 BKING), wtm := true, castle := 0, ep := none, hmc := 0, fmc := 1 } (sq 63) :=
